@@ -26,6 +26,7 @@ type SpecEnv struct {
 	block   *ssa.BasicBlock
 	nbound  int
 	depth   int
+	noInst  bool
 }
 
 func (e *SpecEnv) clone() *SpecEnv {
@@ -573,6 +574,148 @@ func (e *SpecEnv) call(n *ast.CallExpr) Val {
 				iid := u.D.TypeID(t)
 				u.W.implementsAxioms(u, t, impl, iid)
 				return Val{T: and("(not (= (if.typ "+a.T+") 0))", app(impl, "(if.typ "+a.T+")", fmt.Sprint(iid))), Typ: tBool}
+			case "seen":
+				// seen(N, k): key k has already been produced by the map iteration of loop N
+				if e.frame == nil {
+					sfail("seen() outside a function body")
+				}
+				lit, ok := n.Args[0].(*ast.BasicLit)
+				if !ok {
+					sfail("seen(N, k): N must be a literal loop ordinal")
+				}
+				ord, _ := strconv.Atoi(lit.Value)
+				r := e.frame.rangeOfLoop(ord)
+				if r == nil {
+					sfail("loop %d does not range over a map", ord)
+				}
+				k := e.expr(n.Args[1])
+				mt := r.X.Type().Underlying().(*types.Map)
+				vn := e.frame.visitedName(r)
+				u.scalar(vn, "(Array "+u.D.SortOf(mt.Key())+" Bool)")
+				return Val{T: sel(u.hget(e.heap, vn), k.T), Typ: tBool}
+			case "strLitsIn":
+				// strLitsIn(s, "funcKey"): s equals one of the string constants occurring in the
+				// named function of the current package (mechanically extracted from its SSA)
+				a := e.expr(n.Args[0])
+				lit, ok := n.Args[1].(*ast.BasicLit)
+				if !ok {
+					sfail("strLitsIn(s, \"funcKey\")")
+				}
+				key, _ := strconv.Unquote(lit.Value)
+				fn := u.W.findFunction(&Contract{Kind: "func", Key: key, Pkg: e.pkg.Path()})
+				if fn == nil {
+					sfail("strLitsIn: no function %s", key)
+				}
+				seen := map[string]bool{}
+				var alts []string
+				for _, b := range fn.Blocks {
+					for _, in := range b.Instrs {
+						for _, op := range in.Operands(nil) {
+							if c, ok := (*op).(*ssa.Const); ok && c.Value != nil && c.Value.Kind() == constant.String {
+								sv := constant.StringVal(c.Value)
+								if !seen[sv] {
+									seen[sv] = true
+									alts = append(alts, eq(a.T, u.D.StrLit(sv)))
+								}
+							}
+						}
+					}
+				}
+				return Val{T: or(alts...), Typ: tBool}
+			case "curkey":
+				// curkey(N): the key produced by the current iteration of map loop N
+				if e.frame == nil {
+					sfail("curkey() outside a function body")
+				}
+				lit, ok := n.Args[0].(*ast.BasicLit)
+				if !ok {
+					sfail("curkey(N): N must be a literal loop ordinal")
+				}
+				ord, _ := strconv.Atoi(lit.Value)
+				for h, o := range e.frame.loopOrd {
+					if o != ord {
+						continue
+					}
+					for _, in := range e.frame.fn.Blocks[h].Instrs {
+						if nx, ok := in.(*ssa.Next); ok {
+							if tv, ok := e.frame.vals[nx]; ok && len(tv.Tup) == 3 {
+								return tv.Tup[1]
+							}
+						}
+					}
+				}
+				sfail("curkey(%d): no map iteration in progress", ord)
+			case "litWitnesses":
+				// litWitnesses(m, "funcKey"): the ground facts m[key][i] == lit for every
+				// constant-keyed map update with a string-array literal in the named function.
+				// They are read off the SSA as hints only: the solver checks each against the heap.
+				m := e.expr(n.Args[0])
+				lit, ok := n.Args[1].(*ast.BasicLit)
+				if !ok {
+					sfail("litWitnesses(m, \"funcKey\")")
+				}
+				key, _ := strconv.Unquote(lit.Value)
+				fn := u.W.findFunction(&Contract{Kind: "func", Key: key, Pkg: e.pkg.Path()})
+				if fn == nil {
+					sfail("litWitnesses: no function %s", key)
+				}
+				mt, ok := m.Typ.Underlying().(*types.Map)
+				if !ok {
+					sfail("litWitnesses: not a map")
+				}
+				st, ok := mt.Elem().Underlying().(*types.Slice)
+				if !ok {
+					sfail("litWitnesses: map values must be slices")
+				}
+				dom, val := u.mapArrs(mt)
+				earr, _ := u.elemArr(st.Elem())
+				var facts []string
+				for _, tr := range mapLitTriples(fn) {
+					if !types.Identical(tr.mu.Map.Type(), m.Typ) {
+						continue
+					}
+					kt := u.constVal(tr.key).T
+					sv := sel(sel(u.hget(e.heap, val), m.T), kt)
+					facts = append(facts, sel(sel(u.hget(e.heap, dom), m.T), kt))
+					elem := sel(sel(u.hget(e.heap, earr), "(sl.base "+sv+")"), "(sl.at "+sv+" "+u.constVal(tr.idx).T+")")
+					facts = append(facts, eq(elem, u.D.StrLit(tr.lit)))
+					facts = append(facts, fmt.Sprintf("(= (sl.len %s) %d)", sv, tr.n))
+				}
+				if len(facts) == 0 {
+					sfail("litWitnesses: no literal map updates found")
+				}
+				return Val{T: "(and " + strings.Join(facts, " ") + ")", Typ: tBool}
+			case "forLits", "anyLit":
+				// forLits(x, "funcKey", body) / anyLit(...): conjunction / disjunction of body with x
+				// bound to each string constant stored into a literal-initialised map in the named function
+				xid, ok := n.Args[0].(*ast.Ident)
+				lit, ok2 := n.Args[1].(*ast.BasicLit)
+				if !ok || !ok2 {
+					sfail("%s(x, \"funcKey\", body)", id.Name)
+				}
+				key, _ := strconv.Unquote(lit.Value)
+				fn := u.W.findFunction(&Contract{Kind: "func", Key: key, Pkg: e.pkg.Path()})
+				if fn == nil {
+					sfail("%s: no function %s", id.Name, key)
+				}
+				var parts []string
+				seen := map[string]bool{}
+				for _, tr := range mapLitTriples(fn) {
+					if seen[tr.lit] {
+						continue
+					}
+					seen[tr.lit] = true
+					c := e.clone()
+					c.vars[xid.Name] = Val{T: u.D.StrLit(tr.lit), Typ: tString}
+					parts = append(parts, c.expr(n.Args[2]).T)
+				}
+				if len(parts) == 0 {
+					sfail("%s: no literal map entries in %s", id.Name, key)
+				}
+				if id.Name == "forLits" {
+					return Val{T: "(and " + strings.Join(parts, " ") + ")", Typ: tBool}
+				}
+				return Val{T: "(or " + strings.Join(parts, " ") + ")", Typ: tBool}
 			case "isConstOf":
 				// isConstOf(x, T, excluded...): x equals one of the constants of named type T
 				// declared in T's package (mechanically extracted), except the excluded ones
@@ -724,7 +867,28 @@ func (e *SpecEnv) goCall(n *ast.CallExpr) Val {
 		sfail("call to %s in a specification: callee has no 'pure' contract", fnObj.FullName())
 	}
 	c.Used = true
-	return u.W.pureApp(u, c, callee, sig, args, e.heap)
+	res := u.W.pureApp(u, c, callee, sig, args, e.heap)
+	// instantiate the callee's postcondition at ground arguments
+	ground := true
+	for _, a := range args {
+		if strings.Contains(a.T, "?") {
+			ground = false
+		}
+	}
+	if ground && !e.noInst {
+		env := u.W.calleeEnv(u, c, callee, sig, args)
+		env.heap, env.oldHeap, env.noInst = e.heap, e.heap, true
+		env.setResults(sig, []Val{res})
+		for _, cl := range c.ClausesOf("ensures") {
+			if t, err := env.evalBool(cl.Text); err == nil {
+				u.assume("true", t)
+			}
+		}
+		if c.Kind == "extern" || c.Flags["trusted"] {
+			u.trusted["assumed contract: "+c.Target] = true
+		}
+	}
+	return res
 }
 
 func (e *SpecEnv) applySpec(sp *SpecFunc, argx []ast.Expr) Val {
@@ -932,4 +1096,63 @@ func (f *Frame) specEnvAt(b *ssa.BasicBlock, heap *Heap) *SpecEnv {
 		f.bindLets(env, f.contract)
 	}
 	return env
+}
+
+
+type litTriple struct {
+	key  *ssa.Const
+	idx  *ssa.Const
+	lit  string
+	mu   *ssa.MapUpdate
+	n    int
+}
+
+// mapLitTriples reads (key, index, string literal) triples off the constant-keyed map
+// updates with string-array literals in fn. Hints only: every use is checked by the solver
+// against the symbolic heap or compared with what the code provably does.
+func mapLitTriples(fn *ssa.Function) []litTriple {
+	var out []litTriple
+	for _, b := range fn.Blocks {
+		for _, in := range b.Instrs {
+			mu, ok := in.(*ssa.MapUpdate)
+			if !ok {
+				continue
+			}
+			kc, ok := mu.Key.(*ssa.Const)
+			if !ok {
+				continue
+			}
+			sl, ok := mu.Value.(*ssa.Slice)
+			if !ok {
+				continue
+			}
+			al, ok := sl.X.(*ssa.Alloc)
+			if !ok {
+				continue
+			}
+			var ts []litTriple
+			for _, ref := range *al.Referrers() {
+				ia, ok := ref.(*ssa.IndexAddr)
+				if !ok {
+					continue
+				}
+				ic, ok := ia.Index.(*ssa.Const)
+				if !ok {
+					continue
+				}
+				for _, r2 := range *ia.Referrers() {
+					if stv, ok := r2.(*ssa.Store); ok {
+						if c, ok := stv.Val.(*ssa.Const); ok && c.Value != nil && c.Value.Kind() == constant.String {
+							ts = append(ts, litTriple{key: kc, idx: ic, lit: constant.StringVal(c.Value), mu: mu})
+						}
+					}
+				}
+			}
+			for i := range ts {
+				ts[i].n = len(ts)
+			}
+			out = append(out, ts...)
+		}
+	}
+	return out
 }
